@@ -61,12 +61,13 @@ type Input struct {
 	Faults []string `json:"faults"`
 
 	// admin
-	Rpc    string   `json:"rpc"`
-	Signer string   `json:"signer"` // "AUTH" | "AUTH_UPPER" | account name | "EMPTY" | "MALFORMED" | "AUTH_SPACE"
-	Pid    string   `json:"pid"`    // protocol id spelling class (same vocabulary as Fw.Pid) or literal "L:<text>"
-	Cps    []string `json:"cps"`    // counterparty ids (literal strings)
-	Aid    string   `json:"aid"`    // action id
-	V      int64    `json:"v"`      // UpdateParams value; -1 = U32MAX
+	Rpc    string     `json:"rpc"`
+	Signer string     `json:"signer"` // "AUTH" | "AUTH_UPPER" | account name | "EMPTY" | "MALFORMED" | "AUTH_SPACE"
+	Pid    string     `json:"pid"`    // protocol id spelling class (same vocabulary as Fw.Pid) or literal "L:<text>"
+	Cps    []string   `json:"cps"`    // counterparty ids (literal strings)
+	Cpc    [][]string `json:"cpc"`    // their characters (TLC cannot scan strings); filled by normalise
+	Aid    string     `json:"aid"`    // action id
+	V      int64      `json:"v"`      // UpdateParams value; -1 = U32MAX
 
 	// deposit / env
 	Denom string `json:"denom"`
@@ -93,6 +94,10 @@ func (in *Input) normalise() {
 	}
 	if in.Cps == nil {
 		in.Cps = []string{}
+	}
+	in.Cpc = make([][]string, len(in.Cps))
+	for i, c := range in.Cps {
+		in.Cpc[i] = charsOf(c)
 	}
 	if in.Faults == nil {
 		in.Faults = []string{}
@@ -401,4 +406,13 @@ func amountOf(in *Input) string {
 		return "1_000"
 	}
 	return n
+}
+
+// charsOf splits a string into one-character strings (runes), for TLC.
+func charsOf(s string) []string {
+	out := []string{}
+	for _, r := range s {
+		out = append(out, string(r))
+	}
+	return out
 }
